@@ -11,6 +11,28 @@ def run(lines, out, args):
     classes = {}
     objs = {}
     serial = 0
+    metas = []            # the metaclasses of this script: Meta0, Meta1(Meta0)
+    metadecl = {}         # metaclass -> interface numbers declared for it, in order
+    cdirect = {}          # class -> interface numbers its class object was given directly
+
+    def class_object_want(K):
+        """what the CLASS OBJECT K provides: the closure of what it was given directly and of what its metaclass (chain) implements"""
+        want = {Interface}
+        for x in cdirect.get(K, []):
+            want |= set(ifs[x].__iro__)
+        for M in type(K).__mro__:
+            for x in metadecl.get(M, []):
+                want |= set(ifs[x].__iro__)
+        return want
+
+    def class_objects_bad():
+        notes = []
+        for k, K in classes.items():
+            if k and set(providedBy(K).flattened()) != class_object_want(K):
+                notes.append("the class object C%s provides %s" % (k, sorted(i.__name__ for i in providedBy(K).flattened())))
+            if k and not all(I.providedBy(K) == (I in class_object_want(K)) for I in ifs.values()):
+                notes.append("I.providedBy(C%s) disagrees" % k)
+        return notes
 
     def ids(xs):
         inv = {id(v): k for k, v in ifs.items()}
@@ -28,11 +50,18 @@ def run(lines, out, args):
                 classes = {0: object}
                 objs = {}
                 serial += 1
+                M0 = type("Meta0", (type,), {})
+                metas = [M0, type("Meta1", (M0,), {})]
+                metadecl = {}
+                cdirect = {}
                 gc.collect()
             elif f[0] == "iface":
                 ifs[int(f[1])] = InterfaceClass("I%d_%s" % (serial, f[1]), tuple(ifs[b] for b in a) or (Interface,), __module__="zi.gen")
             elif f[0] == "class":
-                classes[int(f[1])] = type("C%d_%s" % (serial, f[1]), tuple(classes[b] for b in a) or (object,), {})
+                # some root classes have a metaclass of their own (subclasses get the most derived one of their bases)
+                k = int(f[1])
+                mk = type if (a or k % 2) else metas[(k // 2) % 2]
+                classes[k] = mk("C%d_%s" % (serial, f[1]), tuple(classes[b] for b in a) or (object,), {})
             elif f[0] == "inst":
                 objs[int(f[1])] = classes[a[0]]()
             elif f[0] == "add":
@@ -62,16 +91,33 @@ def run(lines, out, args):
                 else:
                     directlyProvides(C, *[ifs[x] for x in a])
                 after = [(n_, tuple(fn().flattened())) for n_, fn in watch]
-                want = {Interface}
-                for x in a:
-                    want |= set(ifs[x].__iro__)
-                notes = []
-                if set(providedBy(C).flattened()) != want or not all(ifs[x].providedBy(C) for x in a):
-                    notes.append("the class object provides %s" % sorted(i.__name__ for i in providedBy(C).flattened()))
+                cdirect[C] = list(a)
+                notes = class_objects_bad()
+                if not all(ifs[x].providedBy(C) for x in a):
+                    notes.append("the class object does not provide what it was given")
                 if before != after:
                     notes.append("changed: " + ",".join(n_ for (n_, b_), (_, a_) in zip(before, after) if b_ != a_))
                 if notes:
                     got = "ok CPROV-BAD " + "; ".join(notes)
+            elif f[0] == "mprov":
+                # a declaration for the METACLASS of a class (`classImplements(type(C), ...)`): every class object of that
+                # metaclass provides it from now on, whatever was computed or asked before; instances are untouched
+                C = classes[int(f[1])]
+                M = type(C)
+                if M is not type:
+                    watch = [("providedBy(o%s)" % k, o) for k, o in objs.items()]
+                    before = [tuple(providedBy(o).flattened()) for _, o in watch]
+                    if len(f) > 2 and f[2] == "d":
+                        implementer(*[ifs[x] for x in a])(M)
+                    else:
+                        classImplements(M, *[ifs[x] for x in a])
+                    metadecl.setdefault(M, []).extend(a)
+                    notes = class_objects_bad()
+                    after = [tuple(providedBy(o).flattened()) for _, o in watch]
+                    if before != after:
+                        notes.append("changed: " + ",".join(n_ for (n_, _), b_, a_ in zip(watch, before, after) if b_ != a_))
+                    if notes:
+                        got = "ok CPROV-BAD " + "; ".join(notes)
             elif f[0] == "dp":
                 if len(f) > 2 and f[2] == "d":
                     from zope.interface import provider
